@@ -687,6 +687,10 @@ def fold(t):
                     break
             if isinstance(ch, tuple) and ch and ch[0] == "call" and ch[1].endswith("slice::<impl [T]>::chunks_exact") and len(ch[2]) == 2 and _cint(ch[2][1]) is not None:
                 return ("const", ("int", _cint(ch[2][1]), "usize"))
+    elif k in ("discr", "somepayload") and isinstance(t[1], tuple) and t[1] and t[1][0] == "call" and isinstance(t[1][1], str) and \
+            t[1][1].endswith("bool>::then_some") and len(t[1][2]) == 2:
+        # `c.then_some(v)` is Some(v) exactly when c: its discriminant is c (None = 0 = false), its payload v
+        return t[1][2][0] if k == "discr" else t[1][2][1]
     elif k == "discr":
         inner = t[1]
         if isinstance(inner, tuple) and inner[0] == "call" and inner[1].endswith("FromResidual<std::result::Result<std::convert::Infallible, E>>>::from_residual"):
@@ -1325,6 +1329,31 @@ def _expand_extend_map(B, bi, t, by_path):
     return True
 
 
+def _expand_unwrap_or(B, bi, t):
+    """`dest = opt.unwrap_or(d)` becomes  switch discriminant(opt) { Some => dest = payload, None => dest = d }"""
+    if len(t["args"]) != 2 or t.get("t") is None:
+        return False
+    r_pl = t["args"][0].get("move") or t["args"][0].get("copy")
+    if r_pl is None or r_pl["p"]:
+        return False
+    rty = B["locals"][r_pl["l"]].get("ty", "")
+    line = t.get("line", 0)
+    B["locals"] = B["locals"] + [{"ty": "isize"}]
+    dl = len(B["locals"]) - 1
+    bo = len(B["blocks"])
+    def A(lhs, rv):
+        return {"k": "assign", "lhs": lhs, "rv": rv, "line": line, "exp": None}
+    none_blk = {"cleanup": False, "stmts": [A(t["dest"], {"k": "use", "op": t["args"][1]})], "term": {"k": "goto", "t": t["t"], "line": line, "exp": None}}
+    some_blk = {"cleanup": False, "stmts": [A(t["dest"], {"k": "use", "op": {"move": {"l": r_pl["l"], "p": [{"dc": 1, "n": "Some"}, {"f": 0, "n": "0", "ty": "", "of": rty}]}}})],
+                "term": {"k": "goto", "t": t["t"], "line": line, "exp": None}}
+    unr = {"cleanup": False, "stmts": [], "term": {"k": "unreachable", "line": line, "exp": None}}
+    B["blocks"] = B["blocks"] + [none_blk, some_blk, unr]
+    blk = B["blocks"][bi]
+    blk["stmts"].append({"k": "assign", "lhs": {"l": dl, "p": []}, "rv": {"k": "discr", "place": {"l": r_pl["l"], "p": []}, "of": rty}, "line": line, "exp": None})
+    blk["term"] = {"k": "switch", "discr": {"move": {"l": dl, "p": []}}, "dty": "isize", "vals": ["0", "1"], "tgts": [bo, bo + 1], "otherwise": bo + 2, "line": line, "exp": None, "inlined": "unwrap_or"}
+    return True
+
+
 def _expand_try_fold(B, bi, t, by_path, with_acc):
     """`dest = iter.try_fold(init, |acc, x| body)` / `dest = iter.try_for_each(|x| body)` with a local closure returning a Result becomes
     the loop it stands for:
@@ -1811,6 +1840,7 @@ def _inline_simple_consts(facts):
 
 
 def inline_helpers(facts, is_new, max_rounds=6):
+    is_new_ctx = lambda _p: True
     """Inline calls to `new helper` functions (local bodies for which is_new(path) holds) into their callers, on
     the raw exported MIR: the callee's locals and blocks are appended (renumbered), arguments become assignments
     to the callee's parameter locals, `return` becomes an assignment of its `_0` to the call's destination and a
@@ -1847,6 +1877,11 @@ def inline_helpers(facts, is_new, max_rounds=6):
                 if cal in ("std::result::Result::<T, E>::map", "std::option::Option::<T>::map") and "::tests::" not in B["path"]:
                     if _expand_map(B, bi, t, by_path, adts, "Result" if "Result" in cal else "Option"):
                         done.append((B["path"], "map"))
+                        changed = True
+                    continue
+                if cal == "std::option::Option::<T>::unwrap_or" and "::tests::" not in B["path"] and is_new_ctx(B["path"]):
+                    if _expand_unwrap_or(B, bi, t):
+                        done.append((B["path"], "unwrap_or"))
                         changed = True
                     continue
                 if cal == "<std::vec::Vec<T, A> as std::iter::Extend<T>>::extend" and "::tests::" not in B["path"]:
@@ -1956,7 +1991,7 @@ class Program:
                 # them keeps the identity it had before the helper was extracted)
                 callers = {}
                 for f_, c_ in self.inlined:
-                    if c_ not in ("map", "and_then", "or_else", "unwrap_or_else", "call_once", "try_fold", "map_or_else", "extend"):
+                    if c_ not in ("map", "and_then", "or_else", "unwrap_or_else", "call_once", "try_fold", "map_or_else", "extend", "unwrap_or"):
                         callers.setdefault(c_, set()).add(f_)
                 have_paths = {b["path"] for b in facts["bodies"]}
                 cren = {}
